@@ -9,6 +9,7 @@ import Continuum.Mgr
 import Continuum.Lemmas.UowLive
 import Continuum.Spec.Links
 import Continuum.Props.C05Deep
+import Continuum.RevertFull
 import Continuum.Activity
 import Continuum.Revert
 import Continuum.Trigger
@@ -280,6 +281,13 @@ def shownBy (vt : VTable TKey) (arows : List ARow) (reg : List (Nat × Nat × St
         (manyToOne (tableOf vt pt) (fkOf fk r0) w.tx).toList.map (liftRow pt)
       | _, _ => []
     | _ => []
+
+def parseRelSpec (s : String) : Option RelSpec :=
+  match s.splitOn ":" with
+  | ["o2m", ct, fk] => do pure (.o2m (← parseNat ct) (← parseNat fk))
+  | ["m2o", pt, fk] => do pure (.m2o (← parseNat pt) (← parseNat fk))
+  | ["m2m", rt, atb, lf] => do pure (.m2m (← parseNat rt) (← parseNat atb) (← parseBool lf))
+  | _ => none
 
 def parseReg (s : String) : Option (List (Nat × Nat × String)) :=
   (s.splitOn ";").mapM (fun e => match e.splitOn "/" with
@@ -616,6 +624,26 @@ def handle (st : DState) (toks : List String) : DState × Option String :=
         let deep := decideB (C05.DeepHolds st.c05After res.2)
         let lvl2 := (res.2.filter (fun w => w.key != v.key)).length
         (st, some s!"{deep} {res.2.length} {lvl2}")
+      | none => (st, bad)
+    | _, _, _, _, _ => (st, bad)
+  | ["q05f", tid, pk, tx, reg, paths] =>
+    -- dotted paths, whole state: rows and links predicted by `revertF` from the rows / links before the revert
+    -- against the implementation's rows / links afterwards; does not reset (a `q05` follows)
+    match parseNat tid, parseKey pk, parseNat tx, parseReg reg, parsePaths paths with
+    | some tid, some pk, some tx, some reg, some paths =>
+      match rowAt st.c05V (tid, pk) tx with
+      | some v =>
+        let depth := (paths.map List.length).foldl max 0 + 1
+        let regf : Nat → Nat → Option RelSpec := fun t r =>
+          match reg.find? (fun e => e.1 == t && e.2.1 == r) with
+          | none => none
+          | some e => parseRelSpec e.2.2
+        let res := revertF st.c05V st.arows regf depth paths (st.c05Before, st.c05LinksB, []) v
+        let liveEq := sameLive res.1 st.c05After
+        let linkEq := sameLinkSet res.2.1 st.c05Links
+        let showLive := semi (res.1.map (fun p => s!"{p.1.1} {showKey p.1.2} {showVals p.2}"))
+        let showLinks := semi (res.2.1.map (fun l => s!"{l.1} {showKey l.2}"))
+        (st, some s!"{showBool liveEq} {showBool linkEq} | {showLive} | {showLinks}")
       | none => (st, bad)
     | _, _, _, _, _ => (st, bad)
   | ["q05", tid, pk, tx, rels] =>
